@@ -21,7 +21,34 @@ for e in sorted(glob.glob(os.path.join(V, "evidence", "*.json"))):
     chk = open(os.path.join(V, "checks", pid + ".py")).read() if os.path.exists(os.path.join(V, "checks", pid + ".py")) else ""
     mods = sorted(set(_re.findall(r'"(?:MC|Scen|Trace)_([A-Za-z]+?)(?:_[A-Za-z0-9_]+)?\.cfg"', chk)))
     ev.append("| %s | %s | %s | %s | %s | %s | %s | %s | %s; docs/%s.md |" % (pid, d["tier"], c.get("states", ""), c.get("transitions", ""), c.get("evaluations", ""), c.get("distinct_nontrivial", ""), c.get("traces_validated_against_impl", ""), d.get("wall_s", ""), ", ".join(m + ".tla" for m in mods[:6]), pid))
-block = ("<!-- BEGIN GENERATED -->\n### 8.1b What each check covered in its last committed run (from evidence/)\n\n" + "\n".join(ev) + "\n\n### 8.2 Defects found on the pinned tree (from findings.d/)\n\n" + "\n".join(rows) +
+# --- specification modules as built
+import glob as _glob
+mods = []
+allt = sorted(_glob.glob(os.path.join(V, "spec", "*.tla")))
+chk = {os.path.basename(c)[:-3]: open(c).read() for c in _glob.glob(os.path.join(V, "checks", "*.py"))}
+cfgs = [os.path.basename(c) for c in _glob.glob(os.path.join(V, "spec", "*.cfg"))]
+for t in allt:
+    name = os.path.basename(t)[:-4]
+    if name.startswith(("MC_", "Scen_", "Trace_")) or name == "TraceLib":
+        continue
+    txt = open(t).read()
+    nvars = 0
+    mv = re.search(r"^vars\s*==\s*<<(.*?)>>", txt, re.S | re.M)
+    if mv:
+        nvars = len([x for x in mv.group(1).replace("\n", " ").split(",") if x.strip()])
+    ndefs = len(re.findall(r"^[A-Za-z_][A-Za-z0-9_]*(\([^)]*\))?\s*==", txt, re.M))
+    dep = [os.path.basename(x)[:-4] for x in allt if re.search(r"(EXTENDS|INSTANCE)[^\n]*\b%s\b" % re.escape(name), open(x).read())]
+    ncfg = len([c for c in cfgs if any(re.match(r"(MC_|Scen_|Trace_)?%s(\b|_|\.)" % re.escape(d), c) for d in [name] + dep)])
+    users = sorted(k for k, v in chk.items() if re.search(r"[\"'/]%s[\"'.]" % re.escape(name), v) or any(re.search(r"[\"'/]%s[\"'.]" % re.escape(d), v) for d in dep))
+    first = ""
+    mh = re.search(r"\(\*\s*(.*?)\*\)", txt, re.S)
+    if mh:
+        first = " ".join(mh.group(1).replace("*)", "").replace("(*", "").split())[:150]
+    mods.append("| `%s.tla` | %d | %d | %d | %s | %s | %s |" % (name, len(txt.splitlines()), nvars, ndefs, len(dep), ncfg, ", ".join(users) or "-") + " " + first + " |")
+modtab = ("| module | lines | state variables | definitions | extended / instantiated by (MC, Scen, Trace, control modules) | configurations | checks | header |\n|---|---|---|---|---|---|---|---|\n" + "\n".join(mods) +
+          "\n\n%d modules in all under spec/ (%d of them MC_/Scen_/Trace_ harness modules), %d TLC configurations." % (len(allt), len([t for t in allt if os.path.basename(t).startswith(("MC_", "Scen_", "Trace_"))]), len(cfgs)))
+
+block = ("<!-- BEGIN GENERATED -->\n### 8.1a Specification modules as built (from spec/)\n\n" + modtab + "\n\n" + "<!-- -->\n### 8.1b What each check covered in its last committed run (from evidence/)\n\n" + "\n".join(ev) + "\n\n### 8.2 Defects found on the pinned tree (from findings.d/)\n\n" + "\n".join(rows) +
          "\n\n### 8.3 Seeded changes by fresh sub-agents (seeded/*/)\n\n" + "\n".join(seed) +
          "\n\n### 8.4 Binding demonstration: source mutants per property\n\n" + "\n".join(mut) + "\n<!-- END GENERATED -->\n")
 p = os.path.join(V, "DESIGN.md"); s = open(p).read()
